@@ -8,7 +8,7 @@
 
 Exit: 0 held on everything explored (KNOWN-FINDING lines allowed), 1 VIOLATION, 2 harness failure / inconclusive.
 """
-import sys, os, json, subprocess, time, fcntl, re, hashlib, fnmatch, shutil, tempfile, threading
+import sys, os, resource, json, subprocess, time, fcntl, re, hashlib, fnmatch, shutil, tempfile, threading
 
 VERIF = os.path.dirname(os.path.abspath(__file__))
 REPO = os.environ.get('VERIF_REPO', '/repo')
@@ -251,7 +251,11 @@ def run_shard(agg, exe, variant, shard, nshards, tier, seed, extra, scratch, env
         t0 = time.time()
         with open(errp, 'w') as ef:
             try:
-                p = subprocess.run(cmd, stdout=subprocess.DEVNULL, stderr=ef, env=env, timeout=timeout, cwd=scratch)
+                # no monitor process may write a file larger than 256 MB (a library loop that makes the sanitizer print a warning per iteration
+                # once filled the disk with 26 GB of stderr and the driver's memory with it): beyond that the process gets SIGXFSZ, which is
+                # reported like any other crash of the running case
+                p = subprocess.run(cmd, stdout=subprocess.DEVNULL, stderr=ef, env=env, timeout=timeout, cwd=scratch,
+                                   preexec_fn=lambda: resource.setrlimit(resource.RLIMIT_FSIZE, (256 << 20, 256 << 20)))
                 rc = p.returncode
             except subprocess.TimeoutExpired:
                 rc = -999
@@ -296,7 +300,7 @@ def run_shard(agg, exe, variant, shard, nshards, tier, seed, extra, scratch, env
                     done = True
                     with agg.lock:
                         agg.enumerated = max(agg.enumerated, e.get('enumerated', 0))
-        errtxt = open(errp, errors='replace').read() if os.path.exists(errp) else ''
+        errtxt = open(errp, errors='replace').read(64 << 20) if os.path.exists(errp) else ''    # never more than 64 MB of it
         sig, ub = parse_sanitizer(errtxt)
         prop = extra_prop(extra)
         if tool == 'memcheck' and os.path.exists(vglog):
